@@ -601,6 +601,11 @@ def same_axis(model, real, exact, n_arr):
     return dm.keys() == dr.keys() and all(abs(dm[k] - dr[k]) < 1e-9 for k in dm)
 
 
+def far(diff, tol):
+    """NaN-safe `abs(diff) > tol`: a non-finite difference counts as far"""
+    return not (abs(diff) <= tol)
+
+
 def same_vals(model, real, scale, exact):
     """model: list of rational strings | None per component; real: list of floats | 'ERR:..'"""
     if isinstance(real, str):
@@ -860,7 +865,7 @@ def evaluate(ctx, ev, spec, axes, meta, sides, res):
                              key={"op": leg, "cls": m["cls"]})
             return
         tol = TOL * scale
-        if any(abs(r - e) > tol for r, e in zip(real, ref)):
+        if any(far(r - e, tol) for r, e in zip(real, ref)):
             what = "value differs from the multilinear interpolant"
             if m["cls"] == "centres":
                 what = "value at a cell centre differs from the cell value"
@@ -878,7 +883,7 @@ def evaluate(ctx, ev, spec, axes, meta, sides, res):
         if fs["kind"] == "affine" and all(kd in ("centre", "face", "bulk") for kd in m["kinds"]):
             for cf, r in zip(fs["coef"], real):
                 e = cf[0] + sum(b * c for b, c in zip(cf[1:], p))
-                if abs(r - e) > tol * 4:
+                if far(r - e, tol * 4):
                     ctx.monitor_fail(leg, case, r, e, "affine field not reproduced exactly between centres",
                                      key={"op": leg, "cls": m["cls"]})
                     return
@@ -933,6 +938,15 @@ def evaluate(ctx, ev, spec, axes, meta, sides, res):
         probes = spec["probes"]
         allp = pts + [pr[0] for pr in probes]
         full, fshape = res["data_full"], res["full_shape"]
+        if not all(math.isfinite(v) for c in full for v in c):
+            # the real code left ghost cells (e.g. corners) undefined although data and conditions are finite:
+            # the interpolant near them is then not determined by the data and the imposed boundary values
+            ctx.monitor_evals += 1
+            ctx.monitor_fail("interp_bc", small_case(spec, "interp_bc", bc=spec["bc"]),
+                             "non-finite ghost cells after interpolate(bc=..)", "all ghost cells set from the conditions",
+                             "interpolation with bc must use ghost cells (incl. corners) set from the imposed conditions",
+                             key={"op": "interp_bc", "what": "undefined ghost cells"})
+            full = [[v if math.isfinite(v) else 0.0 for v in c] for c in full]
         fscale = scale_of(full, spec["fill"] or 0.0)
         for with_fill in (False, True):
             if with_fill not in res["interp_bc"]:
@@ -965,7 +979,7 @@ def evaluate(ctx, ev, spec, axes, meta, sides, res):
                         # away from non-periodic boundaries the bc must not matter
                         if all(a[1] or (0 <= x <= a[0] - 1) for a, x in zip(axes, meta[k]["xs"])):
                             ref = ref_interp(axes, comps, allp[k])
-                            if ref is not None and any(abs(r - e) > TOL * scale for r, e in zip(rv, ref)):
+                            if ref is not None and any(far(r - e, TOL * scale) for r, e in zip(rv, ref)):
                                 ctx.monitor_fail(leg, small_case(spec, leg, point=allp[k], bc=spec["bc"]), rv, ref,
                                                  "bc changes the interpolant between cell centres", key={"op": leg})
             # monitor: linear approach to the imposed boundary value / derivative
@@ -987,7 +1001,7 @@ def evaluate(ctx, ev, spec, axes, meta, sides, res):
                     else:  # outward derivative `const`: the interpolant continues with that slope
                         exp.append(cell + const * (dxa / 2) * (1 - t))
                 ctx.hist("bc_probe", f"{kind}/{'upper' if upper else 'lower'}")
-                if isinstance(rv, str) or any(abs(r - e) > TOL * max(fscale, abs(const) * dxa) * 4 for r, e in zip(rv, exp)):
+                if isinstance(rv, str) or any(far(r - e, TOL * max(fscale, abs(const) * dxa) * 4) for r, e in zip(rv, exp)):
                     ctx.monitor_fail(leg, small_case(spec, leg, point=p, bc=spec["bc"], probe=[ax, upper, t, idx]),
                                      rv, exp, f"interpolation with bc does not approach the imposed boundary {kind} linearly",
                                      key={"op": leg, "bc_kind": kind})
@@ -1025,19 +1039,25 @@ def evaluate(ctx, ev, spec, axes, meta, sides, res):
                     if real != "ERR:DomainError":
                         ctx.monitor_fail(leg, case, real, "DomainError", "interpolate_to_grid beyond the domain must raise",
                                          key={"op": leg})
-                elif isinstance(real, str) or any(abs(r - e[0]) > TOL * scale for r, e in zip(real, refs)):
+                elif isinstance(real, str) or any(far(r - e[0], TOL * scale) for r, e in zip(real, refs)):
                     ctx.monitor_fail(leg, case, real, [e[0] for e in refs],
                                      "interpolate_to_grid differs from the multilinear interpolant at the new cell centres",
                                      key={"op": leg})
             elif name == "fill":
                 refs = [ref_interp(axes, comps, p) for p in gp]
                 exp = [spec["fill"] if e is None else e[0] for e in refs]
-                if isinstance(real, str) or any(abs(r - e) > TOL * scale for r, e in zip(real, exp)):
+                if isinstance(real, str) or any(far(r - e, TOL * scale) for r, e in zip(real, exp)):
                     ctx.monitor_fail(leg, case, real, exp, "interpolate_to_grid(fill=..) differs from interpolant / fill",
                                      key={"op": leg})
             ghost = name == "bc"
             data = res["to_grid_full"] if ghost else comps
             shp = res["full_shape"] if ghost else shape
+            if ghost and not all(math.isfinite(v) for c in data for v in c):
+                ctx.monitor_fail(leg, case, "non-finite ghost cells after interpolate_to_grid(bc=..)",
+                                 "all ghost cells set from the conditions",
+                                 "interpolation with bc must use ghost cells (incl. corners) set from the imposed conditions",
+                                 key={"op": leg, "what": "undefined ghost cells"})
+                data = [[v if math.isfinite(v) else 0.0 for v in c] for c in data]
 
             def cb(st, val, leg=leg, real=real, case=case):
                 if st != "ok":
@@ -1074,7 +1094,7 @@ def evaluate(ctx, ev, spec, axes, meta, sides, res):
                 else:
                     for c in range(len(amount)):
                         ib, ia = real["int_before"][c], real["int_after"][c]
-                        if abs((ia - ib) - amount[c]) > TOL * (abs(ib) + abs(amount[c]) + 1.0):
+                        if far((ia - ib) - amount[c], TOL * (abs(ib) + abs(amount[c]) + 1.0)):
                             ctx.monitor_fail(leg, case, {"before": ib, "after": ia, "change": ia - ib}, amount[c],
                                              "insert at an interior point does not change the integral by the amount",
                                              key={"op": leg, "grid_class": gs["cls"]})
@@ -1104,7 +1124,7 @@ def evaluate(ctx, ev, spec, axes, meta, sides, res):
                     sc = max(1.0, max(abs(v) for v in before)) + abs(amount[c]) / min(vol)
                     for m, r in zip(val["data"], ra):
                         if (fr(m) != Fraction(r)) if (exact and gs["cls"] in ("UnitGrid", "CartesianGrid")) \
-                                else abs(float(fr(m)) - r) > TOL * sc:
+                                else far(float(fr(m)) - r, TOL * sc):
                             ctx.disagree(leg, case, [float(fr(x)) for x in val["data"]], ra,
                                          f"insert: new data differs (component {c})")
                             return
@@ -1122,7 +1142,7 @@ def evaluate(ctx, ev, spec, axes, meta, sides, res):
                              "interpreted and compiled inserter disagree about an interior point", key={"op": "insert_vs_comp"})
             continue
         sc = max(1.0, max(abs(v) for v in a["before"])) + max(abs(x) for x in amount) / min(vol)
-        if any(abs(x - y) > TOL * sc for x, y in zip(a["after"], b["after"])):
+        if any(far(x - y, TOL * sc) for x, y in zip(a["after"], b["after"])):
             ctx.monitor_fail("insert_vs_comp", case, b["after"], a["after"],
                              "compiled inserter differs from interpreted insert at an interior point",
                              key={"op": "insert_vs_comp"})
@@ -1163,7 +1183,7 @@ def evaluate_ghost_inserter(ctx, ev, spec, axes, res):
                     return
                 fb, fa = real["full_before"][c], real["full_after"][c]
                 sc = max(1.0, max(abs(v) for v in fb)) + abs(amount[c]) / min(vol)
-                if any(abs(float(fr(m)) - r) > TOL * sc for m, r in zip(val["data"], fa)):
+                if any(far(float(fr(m)) - r, TOL * sc) for m, r in zip(val["data"], fa)):
                     ctx.disagree("insert_comp_ghost", case, [float(fr(x)) for x in val["data"]], fa,
                                  f"ghost inserter: new padded data differ (component {c})")
                     return
@@ -1197,7 +1217,7 @@ def evaluate_ghost_inserter(ctx, ev, spec, axes, res):
                     break
             if bad is None and isinstance(ref, dict):
                 sc = max(1.0, max(abs(v) for v in ref["before"])) + max(abs(x) for x in amount) / min(vol)
-                if any(abs(x - y) > TOL * sc for x, y in zip(real["after"], ref["after"])):
+                if any(far(x - y, TOL * sc) for x, y in zip(real["after"], ref["after"])):
                     bad = (real["after"], ref["after"])
         if bad:
             ctx.monitor_fail("insert_comp_ghost", case, bad[0], bad[1],
